@@ -79,11 +79,27 @@ def node_failures(sp, dt):
                 warnings.simplefilter("ignore")
                 Mr = LO.mat_real(op, op.ishape, dt)
                 Nr = LO.mat_real(H, H.ishape, dt)
-            rs = max(scale, LO.tree_opscale(sp, dt)) if (Mr is not None or Nr is not None) else scale
+            rs = max(scale, LO.tree_opscale(sp, dt))
             if Mr is not None and (Mr.shape != M.shape or not np.linalg.norm(N - Mr.conj().T) <= 2e-4 * rs):
                 out.append("adjoint:real-x")
             if Nr is not None and (Nr.shape != N.shape or not np.linalg.norm(Nr - M.conj().T) <= 2e-4 * rs):
                 out.append("adjoint:real-y")
+            # x / y held in Fortran order (a valid array with the same values): same maps
+            rng = np.random.default_rng(M.shape[0] * 131 + M.shape[1])
+            with warnings.catch_warnings():
+                warnings.simplefilter("ignore")
+                if len(op.ishape) >= 2:
+                    x = (rng.standard_normal(op.ishape) + 1j * rng.standard_normal(op.ishape)).astype(dt)
+                    yx = np.asarray(op(np.asfortranarray(x))).astype(np.complex128).ravel()
+                    if yx.shape != (M.shape[0],) or not np.linalg.norm(yx - M @ x.ravel().astype(np.complex128)) <= \
+                            10 * tol(dt) * rs * max(np.linalg.norm(x.ravel()), 1e-30):
+                        out.append("forward:fortran-x")
+                if len(H.ishape) >= 2:
+                    y = (rng.standard_normal(H.ishape) + 1j * rng.standard_normal(H.ishape)).astype(dt)
+                    xy = np.asarray(H(np.asfortranarray(y))).astype(np.complex128).ravel()
+                    if xy.shape != (M.shape[1],) or not np.linalg.norm(xy - M.conj().T @ y.ravel().astype(np.complex128)) <= \
+                            10 * tol(dt) * rs * max(np.linalg.norm(y.ravel()), 1e-30):
+                        out.append("adjoint:fortran-y")
         except Exception as e:
             out.append("raises:real-probe:%s" % type(e.__cause__ or e).__name__)
     try:
@@ -194,6 +210,10 @@ def pair_failures(sp, dt, pseed):
                 lhs = np.vdot(y.astype(np.complex128), Ax)
                 rhs = np.vdot(AHy, x.astype(np.complex128))
                 sc = np.linalg.norm(Ax) * np.linalg.norm(y) + np.linalg.norm(AHy) * np.linalg.norm(x) + 1e-300
+                if not abs(lhs - rhs) / sc <= 10 * tol(dt):
+                    # relative to the operands when the result cancels (e.g. Sum o FiniteDifference is the zero map)
+                    sc = max(sc, LO.tree_opscale_est(sp, dt, pseed) * np.linalg.norm(x.astype(np.complex128).ravel())
+                             * np.linalg.norm(y.astype(np.complex128).ravel()))
                 worst = max(worst, abs(lhs - rhs) / sc)
             if not worst <= 10 * tol(dt):
                 out.append("adjoint")
